@@ -276,14 +276,14 @@ def shrink(req, still_fails, budget=400, candidates=None):
 def safe_impl(prop, req):
     try:
         return dumps(prop.impl(req))
-    except Exception as e:  # the real code raised something the property module did not map
+    except (Exception, SystemExit) as e:  # the real code raised something the property module did not map (fparser calls sys.exit on some errors)
         return dumps([A('impl-exception'), type(e).__name__, str(e)[:200]])
 
 
 def safe_oracle(prop, req):
     try:
         return list(prop.oracle(req))
-    except Exception as e:
+    except (Exception, SystemExit) as e:
         return [Failure(f'oracle raised {type(e).__name__}: {str(e)[:200]}\n{traceback.format_exc()[-600:]}', error=True)]
 
 
